@@ -1,4 +1,5 @@
 import BppModel.Graph
+import BppModel.GraphOrient
 /-
 Model of src/Bpp/Graph/TreeGraphImpl.h instantiated at GlobalGraph (`TreeGlobalGraph`): the
 graph of `BppModel/Graph.lean` plus the cached validity flag `isValid_` (:31).  The flag is
@@ -383,6 +384,15 @@ def removeSons (t : T) (n : Nat) : GOut (List Nat) × T :=
 
 def linkE (t : T) (a b e : Nat) := t.lift (t.g.linkE a b e)
 
+/-- `GlobalGraph::orientate()` (GlobalGraph.cpp:750) on the container: `makeDirected` (which ends with `topologyHasChanged_` when the
+graph was undirected) and every successful `switchNodes` reset the flag; the model resets it unless nothing at all changed in
+the tables (conservative only for a loop switched with itself on an already directed graph: see `D.orientTouched` for the DAG) -/
+def orientate (t : T) : GOut Unit × T :=
+  let r := t.g.orientate
+  match r with
+  | .ok u g' => (.ok u { g' with pending := [] }, { g := { g' with pending := [] }, valid := if g' = t.g then t.valid else false })
+  | .exc g' => (.exc { g' with pending := [] }, { g := { g' with pending := [] }, valid := if g' = t.g then t.valid else false })
+
 /-- `setFather(node, father, edgeId)` (:421) -/
 def setFatherE (t : T) (n f e : Nat) : GOut Unit × T :=
   if !t.g.hasNode f then (.exc t.g, t) else
@@ -430,6 +440,8 @@ inductive TOp where
   | setFather (n f : Nat) | addSon (n s : Nat) | removeSon (n s : Nat)
   | setFatherE (n f e : Nat) | addSonE (n s e : Nat) | removeSons (n : Nat)
   | rootAt (n : Nat) | unRoot (join : Bool)
+  /-- the other public mutators of `GlobalGraph`, inherited by the container (each ends with `topologyHasChanged_`) -/
+  | createNodeFromNode (o : Nat) | createNodeOnEdge (e : Nat) | createNodeFromEdge (e : Nat) | orientate
   | isValid                               -- the query that writes the cache
   | getSubtree (edges : Bool) (n : Nat)   -- writes the cache as well (`mustBeValid_`)
 deriving Repr
@@ -452,6 +464,10 @@ def step (t : T) : TOp → T
   | .removeSons n => (t.removeSons n).2
   | .rootAt n => match t.rootAt n with | .ok r => r.2 | _ => t
   | .unRoot j => (t.unRoot j).2
+  | .createNodeFromNode o => (t.lift (t.g.createNodeFromNode o)).2
+  | .createNodeOnEdge e => (t.lift (t.g.createNodeOnEdge e)).2
+  | .createNodeFromEdge e => (t.lift (t.g.createNodeFromEdge e)).2
+  | .orientate => t.orientate.2
   | .isValid => t.isValid.2
   | .getSubtree e n => (t.getSubtree e n).2
 
